@@ -272,3 +272,28 @@ def gen_pure_tree(rng, depth):
     op = rng.choice(BINOPS)
     b = gen_pure_tree(rng, depth - 1) if op != "div" else ("const", F(rng.choice([-3, -1, 2, 5]), 2))
     return (op, gen_pure_tree(rng, depth - 1), b)
+
+
+# ------------------------------------------------------------------ trees that keep every node inside its domain
+
+POS_PRESERVING = {"echo", "sma", "ema", "emaa", "max", "min", "alma", "almac", "cum", "gte"}
+
+
+def pos_preserving(e):
+    """on positive raw input this subtree only reports positive values (means / extrema / running sums of positive numbers)"""
+    if e[0] == "const":
+        return e[1] > 0
+    if e[0] not in POS_PRESERVING:
+        return False
+    return all(pos_preserving(a) for a in e[1:] if isinstance(a, tuple))
+
+
+def domain_safe(e):
+    """every Divide has a divisor that cannot be zero, every LnReturn / Drawdown an inner view that stays positive (given
+    positive raw input): no node of the tree is ever asked for 0/0, ln(0) or a negative peak, so no NaN can appear in the
+    release build (where the crate's `debug_assert!`s are compiled out)"""
+    if e[0] == "div" and not pos_preserving(e[2]):
+        return False
+    if e[0] in ("lnret", "drawdown", "lnret_d", "drawdown_d") and not pos_preserving(e[1]):
+        return False
+    return all(domain_safe(a) for a in e[1:] if isinstance(a, tuple))
